@@ -1,12 +1,12 @@
 package zv
 
 import (
-	"os"
 	"fmt"
 	"go/constant"
 	"go/token"
 	"go/types"
 	"math"
+	"os"
 	"regexp"
 	"sort"
 	"strings"
